@@ -1,4 +1,15 @@
 #!/bin/sh
-# tools/seedregress.sh [jobs] : every kept seed against the current checks (tools/seedone.sh), `jobs` at a time
+# tools/seedregress.sh [jobs] : every kept seed against the current checks (tools/seedone.sh).
+# Seeds are grouped by the check that is run (meta "caught_by" or the seed's property); groups run in
+# parallel (`jobs` at a time), the seeds of one group sequentially, because a check regenerates
+# coq/Gen/* from the tree under test and two runs of one check must not overlap.
 cd "$(dirname "$0")/.."
-ls seeded | xargs -P "${1:-4}" -n1 tools/seedone.sh | sort
+python3 - <<'PY' > /var/tmp/seedgroups.txt
+import json,glob,os,collections
+g=collections.defaultdict(list)
+for d in sorted(glob.glob('seeded/*/meta.json')):
+    sid=os.path.basename(os.path.dirname(d)); m=json.load(open(d))
+    g[m.get('caught_by', sid.split('-')[0])].append(sid)
+for k in sorted(g): print(' '.join(g[k]))
+PY
+xargs -P "${1:-5}" -L1 sh -c 'for s in "$@"; do tools/seedone.sh $s; done' _ < /var/tmp/seedgroups.txt | sort
